@@ -420,6 +420,7 @@ def cycle_update_rules(ctx):
     from . import formulas
     formulas.schedule_cost_signs(ctx, "R3")
     formulas.transition_total_signs(ctx, "R3")
+    formulas.transition_formulas(ctx, "R3")
     common.bookkeeping_sees_new_maps(ctx, "R3", common.sites_of(ctx, SCHEDULE))
 
 
